@@ -70,11 +70,15 @@ structure Sess where
   rows : Rows                      -- what the session's connection sees
   committed : Rows
   eoc : Bool                       -- expire_on_commit
+  autoflush : Bool := true         -- Session.autoflush (also what a `no_autoflush` block switches)
 deriving DecidableEq, Repr, Inhabited
 
-def Sess.init (eoc : Bool) : Sess :=
+def Sess.init (eoc : Bool) (autoflush : Bool := true) : Sess :=
   { objs := [], new := [], marked := [], imap := [], txns := [], nextH := 0, ended := [],
-    rows := [], committed := [], eoc := eoc }
+    rows := [], committed := [], eoc := eoc, autoflush := autoflush }
+
+/-- the same session with the autoflush flag set to `b` -/
+abbrev Sess.withAf (s : Sess) (b : Bool) : Sess := { s with autoflush := b }
 
 def Sess.obj (s : Sess) (o : Nat) : Obj := s.objs.getD o default
 def Sess.setObj (s : Sess) (o : Nat) (f : Obj → Obj) : Sess := { s with objs := s.objs.modify o f }
@@ -159,10 +163,14 @@ def Sess.flush (s : Sess) : Sess :=
     flushAll (List.range s.objs.length) s
   else s
 
-/-- load the expired attributes of a persistent object from its row (after autoflush) -/
+/-- `Session._autoflush()`: `if self.autoflush and not self._flushing: self.flush()` -/
+def Sess.autoflushNow (s : Sess) : Sess := if s.autoflush then s.flush else s
+
+/-- load the expired attributes of a persistent object from its row (a SELECT, preceded by
+    the autoflush when autoflush is on) -/
 def Sess.load (s : Sess) (o : Nat) : Sess × SRes :=
   let s := s.autobegin
-  let s := s.flush
+  let s := s.autoflushNow
   let x := s.obj o
   match x.key.bind s.rows.get, x.key with
   | some rv, some k =>
@@ -326,6 +334,7 @@ inductive SOp where
   | beginNested
   | commit | rollback | close
   | tCommit (h : Nat) | tRollback (h : Nat)
+  | setAutoflush (b : Bool)        -- session.autoflush = b (entering / leaving `no_autoflush`)
 deriving DecidableEq, Repr, Inhabited
 
 def Sess.step (s : Sess) : SOp → Sess × SRes
@@ -356,6 +365,9 @@ def Sess.step (s : Sess) : SOp → Sess × SRes
     if x.persistent && !x.vL then s.load o else (s, .ok)
   | .begin => if s.txns.isEmpty then (s.autobegin, .ok) else (s, .invalidRequest)
   | .beginNested =>
+    -- `_take_snapshot`: `if not is_begin and not self.session._flushing: self.session.flush()` —
+    -- an unconditional flush, whatever `autoflush` says: work pending in the enclosing scope
+    -- is written BEFORE the SAVEPOINT
     let s := s.autobegin
     let s := s.flush
     ({ s with txns := { h := s.nextH, nested := true, new := [], dirty := [], deleted := [],
@@ -366,6 +378,7 @@ def Sess.step (s : Sess) : SOp → Sess × SRes
   | .close => (s.close, .ok)
   | .tCommit h => s.tCommit h
   | .tRollback h => s.tRollback h
+  | .setAutoflush b => ({ s with autoflush := b }, .ok)
 
 def Sess.run (s : Sess) : List SOp → Sess
   | [] => s
